@@ -1,0 +1,154 @@
+//! The reader-writer lock used by `CompoundFile`, `Stream` and `Entries`.
+//!
+//! Normally this is just `std::sync::RwLock`.  With `--cfg cfb_verif` it is a
+//! thin wrapper that records, per thread, how many guards of the lock are held
+//! at each acquisition, and lets a harness pause a thread just before it
+//! blocks on the lock.
+
+#[cfg(not(cfb_verif))]
+pub use std::sync::{RwLock, RwLockReadGuard, RwLockWriteGuard};
+
+#[cfg(cfb_verif)]
+pub use self::instrumented::{
+    verif_set_gate, verif_start_recording, verif_take_events, RwLock,
+    RwLockReadGuard, RwLockWriteGuard, VerifLockEvent,
+};
+
+#[cfg(cfb_verif)]
+mod instrumented {
+    use std::cell::Cell;
+    use std::ops::{Deref, DerefMut};
+    use std::panic::Location;
+    use std::sync::{self, LockResult, Mutex, PoisonError};
+
+    /// One acquisition of the lock.
+    #[derive(Clone, Debug, PartialEq, Eq)]
+    pub struct VerifLockEvent {
+        /// `true` for `write()`, `false` for `read()`.
+        pub write: bool,
+        /// Number of guards this thread already held.
+        pub depth_before: usize,
+        /// `file:line` of the caller.
+        pub site: String,
+    }
+
+    type Gate = Box<dyn Fn(&VerifLockEvent) + Send + Sync>;
+
+    thread_local! {
+        static DEPTH: Cell<usize> = const { Cell::new(0) };
+    }
+    static EVENTS: Mutex<Option<Vec<VerifLockEvent>>> = Mutex::new(None);
+    static GATE: Mutex<Option<std::sync::Arc<Gate>>> = Mutex::new(None);
+
+    /// Starts (or restarts) recording of acquisitions, process-wide.
+    pub fn verif_start_recording() {
+        *EVENTS.lock().unwrap() = Some(Vec::new());
+    }
+
+    /// Stops recording and returns what was recorded.
+    pub fn verif_take_events() -> Vec<VerifLockEvent> {
+        EVENTS.lock().unwrap().take().unwrap_or_default()
+    }
+
+    /// Installs a function that is called before every acquisition.
+    pub fn verif_set_gate(gate: Option<Gate>) {
+        *GATE.lock().unwrap() = gate.map(std::sync::Arc::new);
+    }
+
+    fn before(write: bool, location: &Location<'_>) {
+        let event = VerifLockEvent {
+            write,
+            depth_before: DEPTH.with(|d| d.get()),
+            site: format!("{}:{}", location.file(), location.line()),
+        };
+        if let Some(events) = EVENTS.lock().unwrap().as_mut() {
+            events.push(event.clone());
+        }
+        let gate = GATE.lock().unwrap().clone();
+        if let Some(gate) = gate {
+            gate(&event);
+        }
+    }
+
+    fn acquired() {
+        DEPTH.with(|d| d.set(d.get() + 1));
+    }
+
+    fn released() {
+        DEPTH.with(|d| d.set(d.get() - 1));
+    }
+
+    pub struct RwLock<T>(sync::RwLock<T>);
+
+    pub struct RwLockReadGuard<'a, T>(sync::RwLockReadGuard<'a, T>);
+
+    pub struct RwLockWriteGuard<'a, T>(sync::RwLockWriteGuard<'a, T>);
+
+    impl<T> RwLock<T> {
+        pub fn new(value: T) -> RwLock<T> {
+            RwLock(sync::RwLock::new(value))
+        }
+
+        #[track_caller]
+        pub fn read(&self) -> LockResult<RwLockReadGuard<'_, T>> {
+            before(false, Location::caller());
+            let result = match self.0.read() {
+                Ok(guard) => Ok(RwLockReadGuard(guard)),
+                Err(err) => {
+                    Err(PoisonError::new(RwLockReadGuard(err.into_inner())))
+                }
+            };
+            acquired();
+            result
+        }
+
+        #[track_caller]
+        pub fn write(&self) -> LockResult<RwLockWriteGuard<'_, T>> {
+            before(true, Location::caller());
+            let result = match self.0.write() {
+                Ok(guard) => Ok(RwLockWriteGuard(guard)),
+                Err(err) => {
+                    Err(PoisonError::new(RwLockWriteGuard(err.into_inner())))
+                }
+            };
+            acquired();
+            result
+        }
+
+        pub fn into_inner(self) -> LockResult<T> {
+            self.0.into_inner()
+        }
+    }
+
+    impl<T> Deref for RwLockReadGuard<'_, T> {
+        type Target = T;
+        fn deref(&self) -> &T {
+            &self.0
+        }
+    }
+
+    impl<T> Drop for RwLockReadGuard<'_, T> {
+        fn drop(&mut self) {
+            released();
+        }
+    }
+
+    impl<T> Deref for RwLockWriteGuard<'_, T> {
+        type Target = T;
+        fn deref(&self) -> &T {
+            &self.0
+        }
+    }
+
+    impl<T> DerefMut for RwLockWriteGuard<'_, T> {
+        fn deref_mut(&mut self) -> &mut T {
+            &mut self.0
+        }
+    }
+
+    impl<T> Drop for RwLockWriteGuard<'_, T> {
+        fn drop(&mut self) {
+            released();
+        }
+    }
+}
